@@ -47,7 +47,13 @@ pub fn check(case: &Case, _rec: &mut Rec) -> Option<Failure> {
     for i in 0..len {
         let x = nextval(&mut rng, regime, i, m, prev);
         prev = x;
-        let b = B { o: x, h: x * (1.0 + rng.unit() * 0.01), l: x * (1.0 - rng.unit() * 0.01), c: x * (1.0 + (rng.unit() - 0.5) * 0.01), v: 100.0 * (0.5 + rng.unit()) };
+        let mut b = B { o: x, h: x * (1.0 + rng.unit() * 0.01), l: x * (1.0 - rng.unit() * 0.01), c: x * (1.0 + (rng.unit() - 0.5) * 0.01), v: 100.0 * (0.5 + rng.unit()) };
+        // plateaus repeat the previous bar's prices exactly (equal consecutive typical prices), with fresh volume
+        if regime == "plateau" && i % 257 != 0 {
+            if let Some(pb) = bring.back() {
+                b = B { v: b.v, ..*pb };
+            }
+        }
         let out = if bars { inst.next_bar(&b) } else { inst.next(x) };
         if bars {
             big = big.max(b.h);
